@@ -232,7 +232,7 @@ Section Core.
         intros r [l' [-> H']]. simpl. now apply framed_ret.
       + apply framed_ret. apply Hl. destruct inplace; auto.
         simpl in C. cbv beta in *. match goal with H : c_dnc _ = false |- _ => rewrite H in C end. discriminate.
-    - intros l' Hl'. fbindT; [|intros; fstep].
+    - intros l' Hl'. fbindT; [fgo|]. intros value' _. fbindT; [|intros; fstep].
       apply thawed_framed; auto. fbindT; [fprim|]. intros _ _. fgo. fprim.
   Qed.
 
